@@ -22,6 +22,10 @@ def spec_matches(spec, out):
         return out == {"e": "MissingField"}
     if kind == "typeerror":
         return out == {"e": "TypeError"}
+    if kind == "unprintable":
+        return out == {"e": "ValueError:digits"}
+    if kind == "unencodable":
+        return out == {"e": "EncodeError"}
     if kind == "valueerror":
         return common.same_outcome(out, {"e": "ValueError:nonpositive"})
     return False
